@@ -1,5 +1,6 @@
 import MirVerif.Lemmas.Footprint
 import MirVerif.Model.FootprintAllowed
+import MirVerif.Model.FootprintPages
 import MirVerif.Gen.C18_Inventory
 /-!
 # C18 — independent contexts can be used from different threads without interference
@@ -220,5 +221,108 @@ example : opC.Respects ∧ CtxLocal 0 opC ∧ ConformsInventory opC ∧ AvoidsFi
   have hc : opC.Confined 0 := mkOp_confined 0 1 _ _ none (by decide)
   ⟨mkOp_respects 1 _ _ none, (confined_code_hyps hc).1, (confined_code_hyps hc).2.1,
    (confined_code_hyps hc).2.2, by decide⟩
+
+/-! ## 3. Code pages: a context's protection requests stay inside the pages it mapped
+
+Model `Model/FootprintPages.lean`.  Tie: recording `MIR_code_alloc_t` hooks in
+`harness/c18_threads.c` (one adjacent bump arena for all contexts), monitored by `mirdrv_c18`. -/
+
+theorem protOp_respects (owner : Nat → Nat) (id lo n v : Nat) : (protOp owner id lo n v).Respects :=
+  mkOp_respects id _ _ (some v)
+
+/-- A protection request whose window contains only pages mapped by context `i` is an operation
+confined to `i`; by `interleaving_irrelevant` no other thread can observe it. -/
+theorem protect_confined (owner : Nat → Nat) (i id lo n v : Nat)
+    (h : ∀ p, lo ≤ p → p < lo + n → owner p = i) : (protOp owner id lo n v).Confined i := by
+  constructor
+  · intro l hl
+    have hm : l ∈ (List.range' lo n).map (fun p => Loc.ctx (owner p) p) := by
+      simpa [protOp, mkOp] using hl
+    obtain ⟨p, hp, rfl⟩ := List.mem_map.mp hm
+    have hp' := List.mem_range'_1.mp hp
+    simp [Loc.isCtx, h p hp'.1 hp'.2]
+  · intro l hl
+    simp [protOp, mkOp] at hl
+
+/-- Conversely a window that reaches a page mapped by another context is NOT confined: this is the
+interference (the other context's page changes protection under its feet). -/
+theorem foreign_page_not_confined (owner : Nat → Nat) (i id lo n v p : Nat)
+    (h1 : lo ≤ p) (h2 : p < lo + n) (h3 : owner p ≠ i) : ¬ (protOp owner id lo n v).Confined i := by
+  intro hc
+  have hw : (protOp owner id lo n v).writes (Loc.ctx (owner p) p) = true := by
+    have : Loc.ctx (owner p) p ∈ (List.range' lo n).map (fun q => Loc.ctx (owner q) q) :=
+      List.mem_map.mpr ⟨p, List.mem_range'_1.mpr ⟨h1, h2⟩, rfl⟩
+    simpa [protOp, mkOp] using this
+  have := hc.1 _ hw
+  simp [Loc.isCtx] at this
+  exact h3 this
+
+/-- The window `_MIR_change_code` / `_MIR_update_code_arr` compute (`start = addr / page * page`,
+`len = addr + code_len - start`) covers exactly the pages that contain a patched byte: it starts in
+the first such page and ends in the last one. -/
+theorem change_window_tight (page addr len : Nat) (hp : 0 < page) (hl : 0 < len) :
+    protStart page addr / page = firstPage page addr ∧
+    (protStart page addr + protLen page addr len - 1) / page = lastPage page addr len := by
+  have hle : addr / page * page ≤ addr := Nat.div_mul_le_self addr page
+  constructor
+  · simp [protStart, firstPage, Nat.mul_div_cancel _ hp]
+  · have : protStart page addr + protLen page addr len - 1 = addr + len - 1 := by
+      simp only [protStart, protLen]; omega
+    rw [this]; rfl
+
+/-- Boundary case: patched bytes that end exactly on a page end do not make the window reach the
+following page (which may belong to another context). -/
+theorem boundary_patch_stays (page addr len : Nat) (hp : 0 < page) (hl : 0 < len)
+    (hb : (addr + len) % page = 0) :
+    (protStart page addr + protLen page addr len - 1) / page + 1 = (addr + len) / page := by
+  rw [(change_window_tight page addr len hp hl).2]
+  unfold lastPage
+  have hd := Nat.div_add_mod (addr + len) page
+  rw [hb, Nat.add_zero] at hd
+  cases hq : (addr + len) / page with
+  | zero => rw [hq] at hd; simp at hd; omega
+  | succ q =>
+    rw [hq] at hd
+    have hm : page * (q + 1) = page * q + page := Nat.mul_succ page q
+    have hdiv : (addr + len - 1) / page = q := by
+      apply Nat.div_eq_of_lt_le
+      · rw [Nat.mul_comm]; omega
+      · rw [Nat.mul_comm, hm]; omega
+    rw [hdiv]
+
+theorem windowOwned_sound (maps : List Mapping) (lo n : Nat) (h : windowOwned maps lo n = true)
+    (p : Nat) (h1 : lo ≤ p) (h2 : p < lo + n) : ownsPage maps p = true := by
+  unfold windowOwned at h
+  rw [List.all_eq_true] at h
+  exact h p (List.mem_range'_1.mpr ⟨h1, h2⟩)
+
+/-- **Code-page non-interference of a patch.**  If every page containing a patched byte was mapped by
+context `i`, the protection request issued for the patch is confined to `i`. -/
+theorem patch_request_confined (owner : Nat → Nat) (i id page addr len v : Nat) (hp : 0 < page)
+    (hl : 0 < len) (hown : ∀ p, firstPage page addr ≤ p → p ≤ lastPage page addr len → owner p = i) :
+    let lo := protStart page addr / page
+    let hi := (protStart page addr + protLen page addr len - 1) / page
+    (protOp owner id lo (hi + 1 - lo) v).Confined i := by
+  intro lo hi
+  have ht := change_window_tight page addr len hp hl
+  apply protect_confined
+  intro p h1 h2
+  apply hown p
+  · rw [← ht.1]; exact h1
+  · rw [← ht.2]; show p ≤ hi; omega
+
+/-- non-vacuity: context 1 owns pages 4 and 5, context 2 owns page 6; an 8-byte patch ending exactly
+at the end of page 5 is confined to context 1, a window one page longer is not -/
+example : let owner := fun p => if p < 6 then 1 else 2
+    (∀ p, firstPage 4096 (6 * 4096 - 8) ≤ p → p ≤ lastPage 4096 (6 * 4096 - 8) 8 → owner p = 1) ∧
+    (6 * 4096 - 8 + 8) % 4096 = 0 ∧ ¬ (protOp owner 7 5 2 0).Confined 1 := by
+  intro owner
+  refine ⟨?_, by decide, foreign_page_not_confined owner 1 7 5 2 0 6 (by decide) (by decide) (by decide)⟩
+  intro p h1 h2
+  have a : firstPage 4096 (6 * 4096 - 8) = 5 := by decide
+  have b : lastPage 4096 (6 * 4096 - 8) 8 = 5 := by decide
+  rw [a] at h1; rw [b] at h2
+  have : p = 5 := by omega
+  subst this; decide
 
 end MirVerif.C18
